@@ -18,6 +18,7 @@ fn cfgs() -> Vec<Entry> {
     #[cfg(feature = "alloc")] { c!(v, true,"general",ZD,Heap,dyn Cloneable); }
     #[cfg(feature = "alloc")] { c!(v, true,"general",W8D,Heap,dyn TNone); }
     #[cfg(feature = "alloc")] { c!(v, true,"general",A64D,Heap,dyn Cloneable); }
+    #[cfg(feature = "alloc")] { c!(v, true,"general",F40D,Heap,dyn Cloneable); }
     v
 }
 fn main() { anyvec_mc::main_with(cfgs) }
